@@ -33,8 +33,31 @@ def cls(name):
     raise KeyError(name)
 
 
-def build(name, cfg):
-    return cls(name)(**cfg)
+def retyped(cfg, seed, skip=("online_scaling",)):
+    """The same parameter values, one of them handed over as another numeric type of equal value (what a parameter grid built
+    with numpy, a config parser or a CLI yields): a float as numpy.float64 or - when integral - as int, a bool as numpy.bool_
+    or 0 / 1.  Integer parameters are left alone (several constructors insist on `int`), and so is PCACD.online_scaling, whose
+    non-bool values the C11 check treats on its own."""
+    import random
+
+    rng = random.Random(seed)
+    keys = [k for k, v in sorted(cfg.items()) if isinstance(v, (float, bool)) and k not in skip]
+    if not keys:
+        return dict(cfg)
+    k = rng.choice(keys)
+    v = cfg[k]
+    out = dict(cfg)
+    if isinstance(v, bool):
+        out[k] = rng.choice([np.bool_(v), int(v)])
+    elif float(v).is_integer() and rng.random() < 0.5:
+        out[k] = int(v)
+    else:
+        out[k] = np.float64(v)
+    return out
+
+
+def build(name, cfg, retype=None):
+    return cls(name)(**(cfg if retype is None else retyped(cfg, retype)))
 
 
 def sample_cfg(rng, name):
